@@ -391,7 +391,21 @@ def evaluate(run, want=None):
                     spreads.append(float(np.linalg.norm(cc)))
             if not ok_sp:
                 spreads = [0.0] * len(spreads)
-            for msg in repop.check_repopulation([int(x) for x in p["inp"]["labels"]], [int(x) for x in p["out"]["labels"]], K, m, spreads, None)[:2]:
+            # the spread that ranks the donors is that of each cluster's covariance - the inverse of its MRF - computed here
+            # independently of the copy the state carries (when every MRF is there and well conditioned; near-ties are ties)
+            rtol_sp = 0.0
+            try:
+                ths_in = [arrs["train_inverse"] for arrs in p["inp"]["arrays"]]
+                if all(t_ is not None and np.all(np.isfinite(t_)) for t_ in ths_in):
+                    ths_in = [np.atleast_2d(np.asarray(t_, dtype=np.float64)) for t_ in ths_in]
+                    if all(t_.shape == (NW, NW) and np.linalg.cond(t_) < 1e8 for t_ in ths_in):
+                        spreads = [float(np.linalg.norm(np.linalg.inv((t_ + t_.T) / 2))) for t_ in ths_in]
+                        rtol_sp = 1e-6
+                        I.c("repop_calls_ranked_by_independent_spreads")
+            except np.linalg.LinAlgError:
+                pass
+            for msg in repop.check_repopulation([int(x) for x in p["inp"]["labels"]], [int(x) for x in p["out"]["labels"]], K, m, spreads, None,
+                                                spread_rtol=rtol_sp)[:2]:
                 I.v("C08", "in-run repopulation (round %d): %s" % (p["round"], msg))
             I.c("repop_calls_checked")
 
